@@ -273,11 +273,12 @@ def main():
         cfg = dict(cfg, modules=list(cfg['modules']))
         with Lock('lake'):
             r = subprocess.run([sys.executable, os.path.join(VERIF, 'tools', 'translate.py')], stdout=subprocess.PIPE, stderr=subprocess.STDOUT, timeout=120)
-        translation = r.stdout.decode(errors='replace').strip()[:300]
+        translation = r.stdout.decode(errors='replace').strip()[:600]
         if r.returncode != 0:
             # source shape outside the translator's grammar: NOT a violation; the theorems about the generated tables are not
             # claimed in this run and the behavioural tie (exhaustive token sequences, all code points) decides alone
-            cfg['modules'] = [m for m in cfg['modules'] if m != 'SlacProps.C01Source']
+            failed = {'SlacProps.C01Source' if l.startswith('Grammar') else 'SlacProps.C03Source' for l in translation.split('\n') if 'unrecognised' in l}
+            cfg['modules'] = [m for m in cfg['modules'] if m not in (failed or {'SlacProps.C01Source', 'SlacProps.C03Source'})]
     ok, out = lake_build(['driver'] + cfg['modules'])
     proof_ok = ok
     if not ok:
